@@ -217,4 +217,20 @@ def exception_hierarchy(repo=None):
             if v is not None:
                 return v
         return None
-    return {"ids": ids, "anc": anc, "attr": attr, "parents": parents}
+    # errors.for_code: kafka_errors = {x.errno: x for x in _iter_subclasses(BrokerResponseError)} (DFS over
+    # __subclasses__() in definition order; later entries win), default UnknownError
+    order = [n for n in m.classes]                      # dict preserves file order
+    children = {}
+    for n in order:
+        for p in parents.get(n, []):
+            children.setdefault(p, []).append(n)
+    table = {}
+
+    def dfs(n):
+        for ch in children.get(n, []):
+            e = attr(ch, "errno")
+            if isinstance(e, int):
+                table[e] = ch
+            dfs(ch)
+    dfs("BrokerResponseError")
+    return {"ids": ids, "anc": anc, "attr": attr, "parents": parents, "for_code": table}
